@@ -578,7 +578,7 @@ Section ENGINE.
   Definition stage_plan_ok (c : ctx) (s : stage) : bool :=
     match s with
     | SAgg k dur =>
-      negb (dur =? 0) && (Z.quot (c_to c - c_from c) dur <=? 4000000000) &&
+      negb (dur =? 0) && (Z.quot (c_to c - c_from c) dur <=? 100000) &&     (* 100000 range windows since 5180be1; it was 4000000000 *)
       match k with KAggOp AUnsupported => false | _ => true end
     | SLabelFilter f => lfilter_ok f
     | _ => true
@@ -825,8 +825,14 @@ Section ENGINE.
       forallb (fun e => (c_from c <=? e_ts e) && (e_ts e <? c_to c)) l
     | _ => true
     end.
+  (* distinct label sets are distinct series, equal label sets one series *)
+  Definition identity_ok (l : list entry) : bool :=
+    forallb (fun a => forallb (fun b => Bool.eqb (N.eqb (e_fp a) (e_fp b)) (lbls_eqb (lbl_of a) (lbl_of b))) l) l.
+
+  (* ... and the upstream is what ClickHouse delivers: one fingerprint per label set and one label set per fingerprint *)
   Definition in_domain (c : ctx) (ch : list stage) (bs : batches) : bool :=
-    (0 <=? c_limit c) && forallb (stage_plan_ok c) ch && forallb (stage_in_domain c (data_of (List.concat bs))) ch.
+    (0 <=? c_limit c) && forallb (stage_plan_ok c) ch && forallb (stage_in_domain c (data_of (List.concat bs))) ch &&
+    identity_ok (data_of (List.concat bs)).
 
   (* order-insensitive comparison across series: stable sort by label text *)
   Fixpoint lbls_ltb (a b : lbls) : bool :=
@@ -846,10 +852,6 @@ Section ENGINE.
     | x :: r => if lbls_ltb (lbl_of e) (lbl_of x) then e :: l else x :: ins_lbl e r
     end.
   Definition sort_lbl (l : list entry) : list entry := fold_right ins_lbl [] l.
-
-  (* distinct label sets are distinct series, equal label sets one series *)
-  Definition identity_ok (l : list entry) : bool :=
-    forallb (fun a => forallb (fun b => Bool.eqb (N.eqb (e_fp a) (e_fp b)) (lbls_eqb (lbl_of a) (lbl_of b))) l) l.
 
   Definition has_upstream_err (bs : batches) : bool :=
     match first_err (List.concat bs) with Some _ => true | None => false end.
